@@ -433,7 +433,7 @@ class TyGen:
             return gapp("TRowVar", gnat(t.idx), self.print_bound(t.bound))
         if isinstance(t, tys.USize):
             return "TUSize"
-        if isinstance(t, tys._QubitDef):
+        if isinstance(t, type(tys.Qubit)):
             return "TQubit"
         if isinstance(t, tys.Alias):
             return gapp("TAlias", self.gname(t.name), self.print_bound(t.bound))
@@ -451,7 +451,10 @@ class TyGen:
                 b = gapp("Explicit", self.print_bound(d.bound.bound))
             else:
                 b = gapp("FromParams", glist(gnat(i) for i in d.bound.indices))
-            e = d._extension.name if d._extension is not None else ""
+            try:
+                e = d.get_extension().name
+            except Exception:                               # noqa: BLE001 -- a definition outside any extension
+                e = ""
             td = self.coq_typedef(d.name, e, d.description, glist(self.print_param(p) for p in d.params), b)
             cls = type(t).__name__
             klass = {"ExtType": "Generic", "List": "(ElemAt 0)", "StaticArray": "(ElemAt 0)", "Array": "(ElemAt 1)"}.get(cls)
